@@ -23,6 +23,7 @@ type pobs struct {
 	panicMsg string
 	ids      []byte
 	params   [][3]string
+	kv       [][]string // parameterised-prefix family: "key=value" readings of every handler
 	status   string
 	allow    string
 	body     string
@@ -47,6 +48,11 @@ func parseObs(b []byte) pobs {
 				continue
 			}
 			o.ids = append(o.ids, ent[0])
+			if strings.HasPrefix(ent[2:], "names=") {
+				o.kv = append(o.kv, strings.Split(ent[2:], ","))
+				o.params = append(o.params, [3]string{})
+				continue
+			}
 			vals := strings.SplitN(ent[2:], ",", 3)
 			var p [3]string
 			copy(p[:], vals)
@@ -113,6 +119,12 @@ func kindOf(impl, ref pobs) (kind, detail string, leaf int) {
 		}
 		return "handlers-differ", st, leaf
 	}
+	for i := range impl.kv {
+		if i >= len(ref.kv) || strings.Join(impl.kv[i], ",") == strings.Join(ref.kv[i], ",") {
+			continue
+		}
+		return "params", kvDetail(impl.kv[i], ref.kv[i]), int(impl.ids[i] - '0')
+	}
 	for i := range impl.params {
 		if impl.params[i] == ref.params[i] {
 			continue
@@ -156,6 +168,86 @@ func kindOf(impl, ref pobs) (kind, detail string, leaf int) {
 		return "allow", "impl=[" + impl.allow + "] ref=[" + ref.allow + "]", leaf
 	}
 	return "body", "", leaf
+}
+
+// kvDetail describes how the parameter readings of one handler differ (parameterised-prefix
+// family): which readings, and how the observed value relates to the expected readings.
+func kvDetail(impl, ref []string) string {
+	split := func(e string) (string, string) {
+		if i := strings.IndexByte(e, '='); i >= 0 {
+			return e[:i], e[i+1:]
+		}
+		return e, ""
+	}
+	refVal := map[string]string{}
+	for _, e := range ref {
+		k, v := split(e)
+		if _, dup := refVal[k]; !dup {
+			refVal[k] = v
+		}
+	}
+	var parts []string
+	seen := map[string]bool{}
+	add := func(p string) {
+		if !seen[p] {
+			seen[p] = true
+			parts = append(parts, p)
+		}
+	}
+	ik, iv := split(impl[0])
+	rk, rv := split(ref[0])
+	if ik == "names" && rk == "names" && iv != rv {
+		add("Route().Params=[" + iv + "]-not-[" + rv + "]")
+	}
+	// by key: the declared names may differ between the programs
+	implVal := map[string]string{}
+	for _, e := range impl[1:] {
+		k, v := split(e)
+		if _, dup := implVal[k]; !dup {
+			implVal[k] = v
+		}
+	}
+	var keys []string
+	for _, e := range ref[1:] {
+		k, _ := split(e)
+		keys = append(keys, k)
+	}
+	for _, e := range impl[1:] {
+		k, _ := split(e)
+		if _, ok := refVal[k]; !ok {
+			keys = append(keys, k)
+		}
+	}
+	for _, k := range keys {
+		got, gok := implVal[k]
+		want, wok := refVal[k]
+		switch {
+		case !gok:
+			add(k + "=not-declared")
+		case !wok:
+			add(k + "=declared-only-here")
+		case got == want:
+		case got == "":
+			add(k + "=empty")
+		default:
+			rel := "other"
+			if want == "" {
+				rel = "unexpected-value"
+			}
+			for _, e := range ref[1:] {
+				k2, v2 := split(e)
+				if k2 != k && v2 == got && strings.HasPrefix(k2, "n.") {
+					rel = "value-of-" + k2[2:]
+					break
+				}
+			}
+			add(k + "=" + rel)
+		}
+	}
+	if len(parts) > 6 {
+		parts = append(parts[:6], "...")
+	}
+	return strings.Join(parts, ",")
 }
 
 // spellingClass classifies a Route().Path spelling difference (traces equal).
@@ -212,6 +304,9 @@ func mountClass(t *tree) string {
 			case 'm':
 				nm++
 				eff := groupPrefix + n.Prefix // what the mount placeholder is registered under (group prefixes included)
+				if strings.ContainsAny(eff, "*+") {
+					has["wildcard-prefix"] = true
+				}
 				switch {
 				case strings.Contains(eff, ":"):
 					has["param-prefix"] = true
@@ -237,7 +332,7 @@ func mountClass(t *tree) string {
 		has["sibling-mounts"] = true
 	}
 	var feats []string
-	for _, k := range []string{"param-prefix", "param-group-inside-mount", "trailing-slash-prefix", "root-prefix", "uppercase-prefix", "empty-pattern", "mount-from-group", "nested-mount", "sibling-mounts"} {
+	for _, k := range []string{"wildcard-prefix", "param-prefix", "param-group-inside-mount", "trailing-slash-prefix", "root-prefix", "uppercase-prefix", "empty-pattern", "mount-from-group", "nested-mount", "sibling-mounts"} {
 		if has[k] {
 			feats = append(feats, k)
 		}
